@@ -24,7 +24,8 @@ suite=fail; (cd "$wt" && timeout 1500 go test -vet=off -count=1 ./... >"$wt/.sui
 cp "$d/demo_test.go" "$demo"
 demo_patched=pass; (cd "$wt/$pkg" && timeout 600 go test -race -vet=off -count=1 . >"$wt/.demo_patched.log" 2>&1) || demo_patched=fail
 rm -f "$demo"
-out=$(cd "$V" && VERIF_REPO="$wt" ./check "$prop" "$tier" 2>&1); rc=$?
+out=$(cd "$V" && VERIF_REPO="$wt" VERIF_EVIDENCE_DIR="$wt/.evidence" VERIF_REPLAYS_DIR="$wt/.replays" ./check "$prop" "$tier" 2>&1); rc=$?
+if [ -d "$wt/.replays" ]; then f=$(ls "$wt/.replays"/*.json 2>/dev/null | head -1); [ -n "$f" ] && cp "$f" "$d/replay.json"; fi
 viol=$(echo "$out" | grep -c '^VIOLATION')
 first=$(echo "$out" | grep -A1 '^VIOLATION' | head -2 | tail -1 | cut -c1-400)
 valid=no; [ "$demo_clean" = pass ] && [ "$applies" = yes ] && [ "$builds" = yes ] && [ "$suite" = pass ] && [ "$demo_patched" = fail ] && valid=yes
